@@ -141,6 +141,26 @@ def oracle(c):
   want = doc_cost(L, c['s'], c['p'])
   if want is not None and abs(float(o['cost']) - float(want)) > 1e-7 * (1 + abs(float(want))):
     return 'cost %r differs from the documented closed form %r' % (float(o['cost']), float(want))
+  # high/low quadratic devices: the cost difference between two flows is the integral of the documented linear marginal cost
+  if L['cls'] in ('IDevice2', 'CDevice2'):
+    par = lambda v, i: v[i] if isinstance(v, list) else v
+    ref = [b[0] for b in L['bounds']]
+    def prim(pl, ph, lo, hi, t):
+      return F(0) if lo == hi else pl * (t - lo) + (ph - pl) * (t - lo) ** 2 / (2 * (hi - lo))
+    if L['cls'] == 'IDevice2':
+      wd = sum(prim(par(L['p_l'], i), par(L['p_h'], i), lo, hi, x) - prim(par(L['p_l'], i), par(L['p_h'], i), lo, hi, r)
+               for i, ((lo, hi), x, r) in enumerate(zip(L['bounds'], c['s'], ref)))
+    else:
+      wd = sum(prim(L['p_l'], L['p_h'], lo, hi, sum(c['s'][st:en])) - prim(L['p_l'], L['p_h'], lo, hi, sum(ref[st:en]))
+               for lo, hi, st, en in L['cbounds'])
+    try:
+      d = lg.build(L)
+      z = np.zeros(L['n'])
+      got = float(d.cost(np.array(fl(c['s'])), z)) - float(d.cost(np.array(fl(ref)), z))
+    except Exception as e:
+      return 'implementation raised %s: %s' % (type(e).__name__, e)
+    if abs(got - float(wd)) > 1e-7 * (1 + abs(float(wd))):
+      return 'cost(s) - cost(lower bounds) = %r but the integral of the documented marginal cost (p_l at the lower bound, p_h at the upper) is %r' % (got, float(wd))
   wm = doc_marginal(L, c['s'], c['p'])
   if wm is not None:
     for k, (a, b) in enumerate(zip(o['deriv'], wm)):
